@@ -167,6 +167,12 @@ def handle_events(sol_tuple, events, consts, direction, is_terminal, attributes)
     return active_events, roots, terminate, evs
 
 
+def _is_indefinite_time(tf):
+    """Whether a target time is +inf or -inf (integrate until a terminal event fires, in either direction)"""
+    tf = D.ar_numpy.to_numpy(tf)
+    return bool(tf == np.inf) or bool(tf == -np.inf)
+
+
 class DenseOutput(object):
     """Dense Output class for storing the dense output from a numerical integration.
     
@@ -758,7 +764,7 @@ class OdeSystem(object):
         int
             integer number of steps to allocate in the solution arrays of y and t. Defaults to 10 if the final time is set to infinity.
         """
-        if D.ar_numpy.to_numpy(tf) == np.inf:
+        if _is_indefinite_time(tf):
             return 10
         else:
             return max(1, min(5000, int((tf - self.__t[self.counter]) / self.dt)))
@@ -988,7 +994,7 @@ class OdeSystem(object):
                         break
 
         implicit_integration = False
-        if D.ar_numpy.to_numpy(tf) == np.inf:
+        if _is_indefinite_time(tf):
             implicit_integration = True
             if not any(is_terminal):
                 deutil.warning(
@@ -1006,7 +1012,7 @@ class OdeSystem(object):
         total_steps = self.__alloc_space_steps(tf)
 
         if eta:
-            if tf == np.inf:
+            if _is_indefinite_time(tf):
                 tqdm_progress_bar = tqdm(total=None)
             else:
                 tqdm_progress_bar = tqdm(total=int((tf - self.__t[self.counter]) / self.dt) + 1)
@@ -1139,7 +1145,7 @@ class OdeSystem(object):
 
                 if tqdm_progress_bar is not None:
                     tqdm_progress_bar.total = tqdm_progress_bar.n
-                    if D.ar_numpy.to_numpy(tf) == np.inf:
+                    if _is_indefinite_time(tf):
                         tqdm_progress_bar.total = None
                     else:
                         tqdm_progress_bar.total = tqdm_progress_bar.n + int((tf - self.__t[self.counter]) / self.dt) + 1
